@@ -2099,3 +2099,344 @@ func ruleReaderBoundFromFile(e *Engine, r *Report) {
 	})
 	r.floor("DEP-reader-bound", n, 1)
 }
+
+// ruleResetProgress (C02, C17): a replica that becomes leader starts every
+// follower's progress from scratch: in the reset functions the per-member
+// record is replaced by a freshly allocated one (match = 0), or match is
+// explicitly zeroed; only the leader's own slot carries its last index.
+// Reusing the old records keeps match values of an earlier leadership, and
+// heartbeats carry commit = min(match, committed) unchecked.
+func ruleResetProgress(e *Engine, r *Report) {
+	matchF := r.needField("internal/raft", "remote", "match")
+	if matchF == nil {
+		return
+	}
+	n := 0
+	for _, p := range [][2]string{{"resetRemotes", "remotes"}, {"resetNonVotings", "nonVotings"}, {"resetWitnesses", "witnesses"}} {
+		fn := r.need(raftT + p[0])
+		fld := r.needField("internal/raft", "raft", p[1])
+		if fn == nil || fld == nil {
+			continue
+		}
+		n++
+		fresh, zeroed := false, false
+		e.forEachInstrRegion(fn, 1, func(in ssa.Instruction) {
+			if mu, ok := in.(*ssa.MapUpdate); ok && fieldV(fld)(mu.Map) {
+				if _, isAlloc := stripConv(mu.Value).(*ssa.Alloc); isAlloc {
+					fresh = true
+				}
+			}
+			if st, ok := in.(*ssa.Store); ok {
+				if f, _, ok := fieldOfAddr(st.Addr); ok && f == matchF && intConstV(0)(st.Val) {
+					zeroed = true
+				}
+			}
+		})
+		r.check(fresh || zeroed, "MPT-reset-progress", p[0]+" starts every member's match from zero", e.pos(fn.Pos()),
+			"progress records are re-created (or match zeroed) when leadership is assumed",
+			p[0]+" keeps the previous progress records without clearing match: match values of an earlier leadership survive and are advertised as commit indexes in heartbeats")
+	}
+	r.floor("MPT-reset-progress", n, 3)
+}
+
+// ruleTallyDistinct (C03, C18): the number of granted votes is obtained by
+// counting the entries of the per-sender vote map, so a duplicated response
+// cannot be counted twice.
+func ruleTallyDistinct(e *Engine, r *Report) {
+	hv := r.need(raftT + "handleVoteResp")
+	votes := r.needField("internal/raft", "raft", "votes")
+	if hv == nil || votes == nil {
+		return
+	}
+	// the function iterates the vote map, and what it returns is not read from a field
+	dep := false
+	forEachInstr(hv, func(in ssa.Instruction) {
+		if rg, ok := in.(*ssa.Range); ok && fieldV(votes)(rg.X) {
+			dep = true
+		}
+	})
+	raftT2 := e.Named("internal/raft", "raft")
+	if raftT2 != nil && e.returnDependsOn(hv, func(v ssa.Value) bool {
+		f, _, ok := loadedField(v)
+		if !ok || f == votes {
+			return false
+		}
+		if bt, isB := f.Type().Underlying().(*types.Basic); isB && bt.Info()&types.IsInteger != 0 {
+			st := raftT2.Underlying().(*types.Struct)
+			for i := 0; i < st.NumFields(); i++ {
+				if st.Field(i) == f {
+					return true
+				}
+			}
+		}
+		return false
+	}, 0) {
+		dep = false
+	}
+	// no numeric field of raft is incremented as a running tally
+	counter := false
+	forEachInstr(hv, func(in ssa.Instruction) {
+		if st, ok := in.(*ssa.Store); ok {
+			if f, _, ok := fieldOfAddr(st.Addr); ok && f != votes {
+				if b, isB := st.Val.(*ssa.BinOp); isB && b.Op.String() == "+" && fieldV(f)(b.X) {
+					counter = true
+				}
+			}
+		}
+	})
+	r.check(dep && !counter, "GD-tally", "the vote tally counts the distinct senders recorded in raft.votes", e.pos(hv.Pos()),
+		"each sender is counted once however often its response arrives", "the vote tally is a running counter / does not derive from iterating the per-sender vote map: a duplicated response is counted twice")
+}
+
+// ruleSessionLookupSource (C05): whether a client is registered is answered
+// from the session table itself on every call: the session returned by
+// ClientRegistered is the result of the table lookup, not a remembered copy
+// (which would survive eviction or unregistration by another path).
+func ruleSessionLookupSource(e *Engine, r *Report) {
+	cr := r.need("(*internal/rsm.SessionManager).ClientRegistered")
+	if cr == nil {
+		return
+	}
+	var lookup VM = func(v ssa.Value) bool {
+		ex, ok := v.(*ssa.Extract)
+		if !ok {
+			return false
+		}
+		c, ok := ex.Tuple.(*ssa.Call)
+		if !ok {
+			return false
+		}
+		sc := c.Call.StaticCallee()
+		return sc != nil && (sc.Name() == "getSession" || sc.Name() == "getSessionLocked")
+	}
+	n := 0
+	forEachInstr(cr, func(in ssa.Instruction) {
+		ret, ok := in.(*ssa.Return)
+		if !ok || len(ret.Results) < 2 {
+			return
+		}
+		if cb, isC := isConstBool(retOperand(ret, 1)); isC && !cb {
+			return
+		}
+		n++
+		v := retOperand(ret, 0)
+		okv := lookup(v)
+		if ph, isPhi := v.(*ssa.Phi); isPhi {
+			okv = true
+			for _, ed := range ph.Edges {
+				if !lookup(ed) && !isNilConst(ed) {
+					okv = false
+				}
+			}
+		}
+		r.check(okv, "DEP-session-lookup", "ClientRegistered return #"+itoa(n)+" is the table lookup's result", e.ipos(in),
+			"registration is decided by the session table on every call", "ClientRegistered can answer from something other than the session table lookup: an evicted or unregistered session may still be reported as registered")
+	})
+	r.floor("DEP-session-lookup", n, 1)
+}
+
+// membershipFieldsRead: the pb.Membership map fields loaded anywhere in the region of fn.
+func (e *Engine) membershipFieldsRead(fn *ssa.Function) map[string]bool {
+	out := map[string]bool{}
+	e.forEachInstrRegion(fn, 0, func(in ssa.Instruction) {
+		v, ok := in.(ssa.Value)
+		if !ok {
+			return
+		}
+		if f, _, ok := loadedField(v); ok {
+			if _, isMap := f.Type().Underlying().(*types.Map); isMap && f.Pkg() != nil && strings.HasSuffix(f.Pkg().Path(), "raftpb") {
+				out[f.Name()] = true
+			}
+		}
+		if fa, ok := in.(*ssa.FieldAddr); ok {
+			if st := derefStruct(fa.X.Type()); st != nil {
+				f := st.Field(fa.Field)
+				if _, isMap := f.Type().Underlying().(*types.Map); isMap && f.Pkg() != nil && strings.HasSuffix(f.Pkg().Path(), "raftpb") {
+					out[f.Name()] = true
+				}
+			}
+		}
+	})
+	return out
+}
+
+// ruleRestoreRegistersAll (C08, C18): when membership is learned from a
+// snapshot the node registers the address of every member kind (voters,
+// non-voting members and witnesses) and handles the removed set.
+func ruleRestoreRegistersAll(e *Engine, r *Report) {
+	rr := r.need("(*dragonboat.node).RestoreRemotes")
+	if rr == nil {
+		return
+	}
+	got := keysOf(e.membershipFieldsRead(rr))
+	r.check(got == "Addresses,NonVotings,Removed,Witnesses", "TBL-restore-registry", "node.RestoreRemotes handles all four membership maps", e.pos(rr.Pos()),
+		"addresses of voters, non-voting members and witnesses are registered, removed ids handled", "node.RestoreRemotes reads only {"+got+"}: members of the missing kind are unreachable for a replica that learned the membership from a snapshot")
+}
+
+// ruleAddressScanAllKinds (C07): an address already used by any member kind
+// cannot be added again under another id: the address scan of
+// isAddExistingMember covers Addresses, NonVotings and Witnesses.
+func ruleAddressScanAllKinds(e *Engine, r *Report) {
+	fn := r.need("(*internal/rsm.membership).isAddExistingMember")
+	addrEq := e.Func("internal/rsm.addressEqual")
+	if fn == nil {
+		return
+	}
+	// maps whose *values* are scanned: ranged directly, or passed to a helper that ranges its parameter
+	scanned := map[string]bool{}
+	e.forEachInstrRegion(fn, 0, func(in ssa.Instruction) {
+		if rg, ok := in.(*ssa.Range); ok {
+			if f, _, ok := loadedField(rg.X); ok {
+				scanned[f.Name()] = true
+			}
+		}
+		if c, ok := in.(*ssa.Call); ok {
+			g := c.Call.StaticCallee()
+			if g == nil || fnPkg(g) != fnPkg(fn) || g == addrEq {
+				return
+			}
+			for ai, a := range c.Call.Args {
+				f, _, ok := loadedField(a)
+				if !ok || ai >= len(g.Params) {
+					continue
+				}
+				p := g.Params[ai]
+				ranged := false
+				forEachInstr(g, func(x ssa.Instruction) {
+					if rg, ok := x.(*ssa.Range); ok && rg.X == ssa.Value(p) {
+						ranged = true
+					}
+				})
+				if ranged {
+					scanned[f.Name()] = true
+				}
+			}
+		}
+	})
+	got := keysOf(scanned)
+	r.check(got == "Addresses,NonVotings,Witnesses", "TBL-cc-predicate", "isAddExistingMember scans the addresses of all three member kinds", e.pos(fn.Pos()),
+		"an address in use by a voter, non-voting member or witness is refused", "the address-in-use scan covers only {"+got+"}: an address used by a member of the missing kind can be added again under a new id")
+}
+
+// ruleReadyToStream (C08): a snapshot is streamed to a follower only when
+// the state machine says it is ready to stream (for an on-disk state machine:
+// its applied index has reached what is already on disk).
+func ruleReadyToStream(e *Engine, r *Report) {
+	cs := r.need("(*dragonboat.node).canStream")
+	rts := r.need("(*internal/rsm.StateMachine).ReadyToStream")
+	if cs == nil || rts == nil {
+		return
+	}
+	r.returnsOnlyUnder("GD-ready-to-stream", fname(cs), cs, 0, true, nil, reqBool("StateMachine.ReadyToStream() is true", e.callV(rts), true))
+}
+
+// ruleTanRemoveAll (C09): removing a node's data resets its whole index:
+// every component of nodeIndex (entries, currEntries with their compaction
+// watermarks, snapshot, state) is assigned as a whole.
+func ruleTanRemoveAll(e *Engine, r *Report) {
+	ra := r.need("(*internal/tan.nodeIndex).removeAll")
+	niT := e.Named("internal/tan", "nodeIndex")
+	if ra == nil || niT == nil {
+		return
+	}
+	st := niT.Underlying().(*types.Struct)
+	assigned := map[string]bool{}
+	forEachInstr(ra, func(in ssa.Instruction) {
+		s, ok := in.(*ssa.Store)
+		if !ok {
+			return
+		}
+		fa, ok := s.Addr.(*ssa.FieldAddr)
+		if !ok {
+			return
+		}
+		if p, isP := fa.X.(*ssa.Parameter); isP && p == ra.Params[0] {
+			if ds := derefStruct(fa.X.Type()); ds != nil {
+				assigned[ds.Field(fa.Field).Name()] = true
+			}
+		}
+	})
+	for _, want := range []string{"entries", "currEntries", "snapshot", "state"} {
+		found := false
+		for i := 0; i < st.NumFields(); i++ {
+			if st.Field(i).Name() == want {
+				found = true
+			}
+		}
+		if !found {
+			continue
+		}
+		r.check(assigned[want], "MPT-tan-remove-all", "nodeIndex.removeAll resets "+want+" as a whole", e.pos(ra.Pos()),
+			"nothing of the removed node's index survives (including compaction watermarks)", "nodeIndex.removeAll no longer assigns "+want+" as a whole: parts of it (e.g. the compactedTo watermark) survive RemoveNodeData/ImportSnapshot and hide entries saved later")
+	}
+}
+
+// ruleTanNewLogOrder (C04, C10): a new Tan log file's directory entry is
+// made durable before the MANIFEST is told about the file (logAndApply), and
+// inside a write the log is rotated before the record is written, never
+// between the record write and the caller's fsync of "the current file".
+func ruleTanNewLogOrder(e *Engine, r *Report) {
+	cn := r.need("(*internal/tan.db).createNewLog")
+	la := r.need("(*internal/tan.versionSet).logAndApply")
+	dataDir := r.needField("internal/tan", "db", "dataDir")
+	if cn != nil && la != nil && dataDir != nil {
+		isDirSync := func(in ssa.Instruction) bool {
+			c, ok := in.(ssa.CallInstruction)
+			return ok && c.Common().IsInvoke() && c.Common().Method.Name() == "Sync" && fieldV(dataDir)(c.Common().Value)
+		}
+		for _, s := range e.SitesIn(cn, la) {
+			ok, _ := e.alwaysPrecededBy(s.(ssa.Instruction), isDirSync, 0)
+			r.check(ok, "MPT-tan-newlog-order", "createNewLog syncs the data directory before the manifest references the new log", e.ipos(s),
+				"the file exists durably when the manifest names it", "the manifest can name a log file whose directory entry is not durable yet: a crash in between makes the consistency check fail on reopen")
+		}
+	}
+	wr := r.need("(*internal/tan.db).write")
+	sw := r.need("(*internal/tan.db).switchToNewLog")
+	if wr == nil || sw == nil {
+		return
+	}
+	wrec := e.Func("(*internal/tan.writer).writeRecord")
+	if wrec == nil {
+		r.undecided("ANCHOR", "(*internal/tan.writer).writeRecord", "anchored function no longer resolves")
+		return
+	}
+	reaches := func(target *ssa.Function) func(ssa.Instruction) bool {
+		set := map[*ssa.Function]bool{target: true}
+		for _, g := range e.regionOf(wr, 3) {
+			if len(e.SitesIn(g, target)) > 0 {
+				set[g] = true
+			}
+		}
+		// one more round for wrappers of wrappers
+		for _, g := range e.regionOf(wr, 3) {
+			forEachCall(g, func(c ssa.CallInstruction) {
+				if sc := c.Common().StaticCallee(); sc != nil && set[sc] {
+					set[g] = true
+				}
+			})
+		}
+		return func(in ssa.Instruction) bool {
+			c, ok := in.(*ssa.Call)
+			if !ok {
+				return false
+			}
+			sc := c.Call.StaticCallee()
+			return sc != nil && set[sc]
+		}
+	}
+	isWrite, isRotate := reaches(wrec), reaches(sw)
+	n := 0
+	for _, g := range e.regionOf(wr, 3) {
+		forEachInstr(g, func(in ssa.Instruction) {
+			if !isWrite(in) {
+				return
+			}
+			n++
+			// no rotation after the record write inside the same function, unless that call is the same one (it rotates first, then writes)
+			res := e.findPath(g, in, func(x ssa.Instruction) bool { return isRotate(x) }, nil, nil)
+			r.check(!res.Found, "MPT-tan-newlog-order", "no log rotation after the record write in "+fname(g), e.ipos(in),
+				"the file the caller fsyncs is the file the record went to", "the log can be rotated after the record was written and before the caller's fsync: the fsync hits the new empty file and the record in the old file is never synced")
+		})
+	}
+	r.floor("MPT-tan-newlog-order", n, 1)
+}
